@@ -19,6 +19,7 @@ def campaign_c14(seed, tier):
     for s in (0, 1, 2):
         t = T[s]
         classes = [0, 1, 100] if t == 0 else [0, t - 1, t, t + 1, 10 * t]
+        classes += [32767, 32768, 65535, 65536, 65537, 100000, 1999999]     # representation boundaries of the elapsed time
         for el in classes:
             lines = ["NEW", "ADV 2000000"]
             now_s = 2001
@@ -31,10 +32,24 @@ def campaign_c14(seed, tier):
         for _ in range(150):
             x = rng.random()
             if x < 0.3:
-                lines.append("ADV %d" % rng.choice([0, 1, 999, 1000, 4000, 5000, 6000, 29000, 30000, 31000, 60000]))
+                lines.append("ADV %d" % rng.choice([0, 1, 999, 1000, 4000, 5000, 6000, 29000, 30000, 31000, 60000, 32768000, 65537000]))
             else:
                 lines.append("MSTEP %d" % rng.choice([0, 0, 2, 2, -3, 8, -1, 6, 11, 4, 9, rng.randrange(-128, 256)]))
         scs.append(Scenario("c14-hist-%d" % i, lines))
+    # the 30 s inactivity rule at several clock origins (a monotonic clock may start at 0)
+    for ci, clock in enumerate([0, 1, 700, 999, 1000, 5000, 59000, 4000000000]):
+        for first in ("discover", "discover+emit"):
+            for small in (0, 300, 900):
+                lines = ["CLOCK %d" % clock, "NEW"]
+                f = discover(0, key_mac(1), gen=1, seq=1, stations=[key_mac(9)])
+                lines.append("GLUE %d 0 %s" % (len(f), f.hex()))
+                if first != "discover":
+                    e = emit(key_mac(1), OWN, [(1, 0, OWN, key_mac(30))], seq=6)
+                    lines.append("GLUE %d 0 %s" % (len(e), e.hex()))
+                lines += ["ADV %d" % small, "TICK", "ADV 28000", "TICK", "ADV 3100", "TICK", "ADV 1000", "TICK"]
+                lines.append("GLUE %d 0 %s" % (len(f), f.hex()))
+                lines += ["ADV 31000", "TICK", "TICK"]
+                scs.append(Scenario("c14-inactive-%d-%s-%d" % (ci, first.replace("+", ""), small), lines))
     # tick-driven timeout through the frame path
     for i in range(12 if tier == "quick" else 300):
         scs.append(sc_schedule("c14-tick-%d" % i, rng.randrange(1 << 30), 80, long_gaps=True))
@@ -46,7 +61,7 @@ def campaign_c15(seed, tier):
     rng = random.Random(seed)
     scs = []
     for s in (0, 1, 2, 3):
-        for el in (0, 1, 2, 10):
+        for el in (0, 1, 2, 10, 32767, 32768, 65535, 65536, 65537, 100000, 4999999):
             lines = ["NEW", "ADV 5000000"]
             now_s = 5001
             for ev in list(range(0, 8)) + [8, 9, 11, -1, -2, 255, 100]:
@@ -56,7 +71,7 @@ def campaign_c15(seed, tier):
         lines = ["NEW"]
         for _ in range(200):
             if rng.random() < 0.25:
-                lines.append("ADV %d" % rng.choice([0, 500, 999, 1000, 1001, 2000, 2001, 5000]))
+                lines.append("ADV %d" % rng.choice([0, 500, 999, 1000, 1001, 2000, 2001, 5000, 32767000, 32768000, 65536000, 86400000]))
             else:
                 lines.append("SSTEP %d" % rng.randrange(0, 8))
         scs.append(Scenario("c15-hist-%d" % i, lines))
@@ -210,7 +225,7 @@ def sc_schedule(name, seed, n, long_gaps=False):
     """interleavings of tick, clock advance, session add/refresh/complete/remove/clear, Hello heard,
     frames through the Darwin frame path"""
     rng = random.Random(seed)
-    lines = ["NEW"]
+    lines = ["CLOCK %d" % rng.choice([1000, 1000, 0, 700, 999, 123456789]), "NEW"]
     keys = [1, 2, 3]
     adv = [0, 1, 10, 50, 100, 100, 100, 299, 300, 301, 500, 999, 1000, 1001, 1100, 2000, 5000]
     if long_gaps:
